@@ -46,12 +46,17 @@ theorem point_key_injective : Function.Injective (fun p : E => (p.x, paritySign.
         cases hb : paritySign.neg p'.y <;> rw [hb] at hs <;> simp at hs
   exact Point.ext hx hy
 
-noncomputable instance : Fintype E := Fintype.ofInjective _ point_key_injective
+instance instNeZeroQ : NeZero q := ⟨Nat.pos_iff_ne_zero.mp q_pos⟩
+
+noncomputable instance instFintypeE : Fintype E := Fintype.ofInjective (fun p : E => (p.x, paritySign.neg p.y)) point_key_injective
 
 theorem card_E_le : Fintype.card E ≤ 2 * q := by
   have h := Fintype.card_le_of_injective _ point_key_injective
-  rw [Fintype.card_prod, ZMod.card, Fintype.card_bool] at h
-  omega
+  have hc : Fintype.card (Fq × Bool) = q * 2 :=
+    (Fintype.card_prod Fq Bool).trans (congrArg₂ (· * ·) (ZMod.card q) Fintype.card_bool)
+  calc Fintype.card E ≤ Fintype.card (Fq × Bool) := h
+    _ = q * 2 := hc
+    _ = 2 * q := Nat.mul_comm _ _
 
 theorem four_dvd_card_E : 4 ∣ Fintype.card E := by
   have hne : ¬ 2 ^ 1 • (Point.C4 : E) = 0 := by
